@@ -25,6 +25,7 @@ type DiffConfig struct {
 	SkipNotBuilt bool // a variant pigeon rejects / that does not compile is counted, not reported
 	Sig          func(g *gast.Grammar, variant []string, d diff) []string
 	OnUnit       func(u *Unit)                                                            // called for every built unit (e.g. inspection of the emitted source)
+	CaseOK       func(variant []string, cs *mon.Case) bool                                // optional: whether a case applies to a variant
 	SigCase      func(g *gast.Grammar, variant []string, d diff, base *mon.Case) []string // like Sig, with the case as drawn (before options a variant lacks were cleared)
 }
 
@@ -136,6 +137,9 @@ func (c *Ctx) diffChunk(cfg *DiffConfig, lo, hi int) {
 				continue
 			}
 			for ci, bc := range base {
+				if cfg.CaseOK != nil && !cfg.CaseOK(varOf[i][vi], bc) {
+					continue
+				}
 				cc := *bc
 				cc.Pkg = u.Pkg
 				cc.ID = fmt.Sprintf("%s/%d", u.Pkg, ci)
